@@ -253,6 +253,11 @@ impl Scenario for Sc10 {
                 if cleaning && label.starts_with("del ") {
                     v.push(Choice { task: *i, go: Go::Proceed, stop: true });
                 }
+                // a page of a listing may fail (the store answers with an error once): whatever the
+                // cleanup does with a listing it could not finish, it must not delete needed history
+                if cleaning && label.starts_with("list ") {
+                    v.push(Choice { task: *i, go: Go::FailBefore, stop: false });
+                }
             }
         }
         v
@@ -542,8 +547,9 @@ pub fn run(opts: &Opts) -> i32 {
             }
             let class = f.what.split(':').next().unwrap_or("").to_string();
             let uses_stop = f.trace.iter().any(|(c, _)| c.stop);
+            let uses_fault = f.trace.iter().any(|(c, _)| c.go != Go::Proceed);
             rep.violation(Violation::new(
-                format!("{class}:{:?}{}", sc.parties, if uses_stop { ":truncated" } else { "" }),
+                format!("{class}:{:?}{}", sc.parties, if uses_stop { ":truncated" } else if uses_fault { ":failed-list-page" } else { "" }),
                 f.what.clone(),
                 json!({"kind": "c10-schedule", "layout": sc.lay, "parties": sc.parties, "truncate": sc.truncate, "front_puts": sc.front_puts,
                        "schedule": super::c02::trace_to_json(&f.trace), "observed": f.what}),
